@@ -657,6 +657,38 @@ impl Block {
         let mut cv: ConsensusValues = block
             .generate_consensus_values(blockchain, storage, configs)
             .await;
+        //
+        // an output that this block rebroadcasts cannot be spent by a transaction of this
+        // block as well (and never afterwards: the rebroadcast consumes it). pooled
+        // transactions that try are left out instead of failing the whole block.
+        //
+        if !cv.rebroadcasts.is_empty() {
+            let mut rebroadcast_inputs: AHashMap<SaitoUTXOSetKey, u64> = AHashMap::new();
+            for rebroadcast_tx in &cv.rebroadcasts {
+                for input in rebroadcast_tx.from.iter() {
+                    if input.amount > 0 {
+                        rebroadcast_inputs.insert(input.get_utxoset_key(), 1);
+                    }
+                }
+            }
+            let count_before = block.transactions.len();
+            block.transactions.retain(|tx| {
+                tx.transaction_type == TransactionType::GoldenTicket
+                    || !tx.from.iter().any(|input| {
+                        input.amount > 0 && rebroadcast_inputs.contains_key(&input.get_utxoset_key())
+                    })
+            });
+            if block.transactions.len() != count_before {
+                warn!(
+                    "{} transaction(s) spending outputs that block {} rebroadcasts were left out",
+                    count_before - block.transactions.len(),
+                    block.id
+                );
+                cv = block
+                    .generate_consensus_values(blockchain, storage, configs)
+                    .await;
+            }
+        }
         block.cv = cv.clone();
 
         //
@@ -843,6 +875,17 @@ impl Block {
                                 "double-spend detected in block {} : {} in block.create()",
                                 block.id, input
                             );
+                            // hand the drained transactions back to the caller's pool
+                            for tx in block.transactions.iter() {
+                                if !matches!(
+                                    tx.transaction_type,
+                                    TransactionType::GoldenTicket
+                                        | TransactionType::ATR
+                                        | TransactionType::Fee
+                                ) {
+                                    transactions.insert(tx.signature, tx.clone());
+                                }
+                            }
                             return Err(Error::new(
                                 ErrorKind::InvalidData,
                                 "double-spend detected",
